@@ -1,4 +1,5 @@
 import GixModel.Lemmas.C25File
+import GixModel.Lemmas.C24Tree
 /-
 C25 — Index files written by gitoxide round-trip and are valid for git.  PROPERTY THEOREMS ONLY.
 
@@ -102,6 +103,13 @@ theorem write_read_file (sha1 : Bytes → Bytes) (hsha : ∀ x, (sha1 x).length 
         (expectedExts (writtenTree s o) none s.isSparse false (wantsEoie s o))
         (if isNull (trailerOf sha1 s o) then none else some (trailerOf sha1 s o)) :=
   writeFile_readback sha1 hsha s o threads ht hok hfit hsize hno
+
+/-- The cache tree gitoxide writes reads back as the same tree in canonical form (children sorted by
+name — which a tree that came out of the decoder already is). -/
+theorem tree_ext_write_read (t : Tree) (hwf : WfTree t) :
+    treeDecodeOpt (writeTreeEntry t) = some (canonTree t) := by
+  rw [writeTreeEntry_eq]
+  exact treeDecodeOpt_encoded t hwf
 
 /-- a well-formed entry with a path of `n` bytes -/
 def sample (n : Nat) (flags : Nat) : Entry :=
